@@ -80,7 +80,20 @@ func (e *enc) callWith(c *ssa.CallCommon, args []Val, site ssa.Instruction, pos 
 			if ca.CallK >= 0 && ca.CallK != ord {
 				continue
 			}
+			if e.matchedCA == nil {
+				e.matchedCA = map[*Clause]bool{}
+			}
+			e.matchedCA[ca] = true
 			env := e.callSiteEnv(fc, callee, c, args)
+			if ca.Kind == "reached_when" {
+				// the call is reached whenever the condition holds: no early exit or skipped branch in front of it
+				g := e.trBool(ca.E, env, "call-site reached_when")
+				saved := e.curReach
+				e.curReach = "true"
+				e.oblige1("assert", fmt.Sprintf("call %s#%d reached %s", short, ord, clauseName(ca)), ca.Props, ca.Src, "(=> "+and(g, e.enclosingReach(e.curBlock, nil))+" "+saved+")", pos)
+				e.curReach = saved
+				continue
+			}
 			g := e.trBool(ca.E, env, "call-site assert")
 			e.oblige("assert", fmt.Sprintf("call %s#%d %s", short, ord, clauseName(ca)), ca.Props, ca.Src, g, pos)
 			e.assumeHere(g)
